@@ -193,6 +193,9 @@ package rtree
 //@   requires [group] group != nil
 //@   ensures [levels_kept] forall m *node :: m != nil && !fresh(m) ==> m.level == old(m.level) && m.leaf == old(m.leaf)
 //@   ensures [appended_once] len(group.entries) == old(len(group.entries)) + 1
+//@   ensures [is_the_last_entry] group.entries[len(group.entries)-1].child == e.child && group.entries[len(group.entries)-1].bb == e.bb
+//@   ensures [child_knows_its_parent] e.child != nil ==> e.child.parent == group
+//@   ensures [other_parents_kept] forall m *node :: m != nil && m != e.child ==> m.parent == old(m.parent)
 //@   modifies *group, *e.child
 
 //@ func assignGroup
@@ -203,6 +206,8 @@ package rtree
 //@   requires [two_groups] left != nil && right != nil && left != right && e.child != left && e.child != right
 //@   ensures [levels_kept] forall m *node :: m != nil && !fresh(m) ==> m.level == old(m.level) && m.leaf == old(m.leaf)
 //@   ensures [assigned_to_exactly_one_group] len(left.entries) + len(right.entries) == old(len(left.entries) + len(right.entries)) + 1
+//@   ensures [child_knows_its_parent] e.child != nil ==> (e.child.parent == left && len(left.entries) == old(len(left.entries)) + 1) || (e.child.parent == right && len(right.entries) == old(len(right.entries)) + 1)
+//@   ensures [other_parents_kept] forall m *node :: m != nil && m != e.child ==> m.parent == old(m.parent)
 
 // pickSeeds: verified (was trusted): on a node with at least two boxed entries the two seeds are
 // two different valid entry indices, in order; nothing is written.
